@@ -112,6 +112,9 @@ type Filter struct {
 	Val   uint32 `json:"val"`
 	IsStr bool   `json:"is_str,omitempty"`
 	Class string `json:"class"`
+	// Unrep: the text is a number no 32-bit field can hold (beyond 2^32-1 or below -2^31), so the
+	// rule cannot be encoded "as asked": accepting it at all is the deviation.
+	Unrep bool `json:"unrepresentable,omitempty"`
 }
 
 type Sys struct {
@@ -483,8 +486,8 @@ func genString(t *rapid.T, label string, o Opts, max int) []byte {
 	if o.FlagsRoute && !o.Strict {
 		// whitespace at the ends of a flag value may legitimately be trimmed
 		s = strings.TrimSpace(s)
-		if s == "" {
-			s = "x"
+		if s == "" || strings.ContainsAny(s[:1], "=<>&!") {
+			s = "x" + s // after '<', '>', '&' or '!' a leading '=' would read as a different operator
 		}
 	}
 	return []byte(s)
@@ -501,10 +504,31 @@ func pick[T any](t *rapid.T, label string, xs []T) T { return rapid.SampledFrom(
 func GenFilter(t *rapid.T, list string, o Opts, haveArch *string) (Filter, string) {
 	kinds := []string{"num", "num", "uid", "gid", "strx", "stra", "exit", "msgtype", "arch", "perm", "filetype", "inode", "saddr_fam", "cmp", "path"}
 	kind := pick(t, "fkind", kinds)
+	if rapid.IntRange(0, 24).Draw(t, "outofrange") == 0 {
+		kind = "range"
+	}
 	op := pick(t, "op", AllOps)
 	invalid := ""
 	var f Filter
 	switch kind {
+	case "range":
+		name := pick(t, "field", append(append(append([]string{"inode", "exit", "msgtype", "saddr_fam"}, NumFields...), UIDFields...), GIDFields...))
+		big := rapid.OneOf(rapid.SampledFrom([]int64{1 << 32, 1<<32 + 1, 1<<32 + 2, 1<<32 + 10, 1 << 33, 1<<63 - 1, 1<<40 + 7}), rapid.Int64Range(1<<32, 1<<34)).Draw(t, "big")
+		txt := strconv.FormatInt(big, 10)
+		switch rapid.IntRange(0, 3).Draw(t, "rangeform") {
+		case 0:
+			txt = "-" + strconv.FormatInt(big-(1<<31)+1, 10) // -(2^31+1) and below
+		case 1:
+			txt = "0x" + strconv.FormatInt(big, 16)
+		case 2:
+			txt = "-" + txt
+		}
+		f = flt(name, op, []byte(txt), 0, "out-of-range")
+		f.Unrep = true
+		if name == "inode" && op != "=" && op != "!=" {
+			f.Op, f.OpC = "=", uapi.A(OpConst["="])
+		}
+		invalid = "number that no 32-bit field can hold"
 	case "num":
 		name := pick(t, "field", NumFields)
 		v := u32(t, "val")
